@@ -435,7 +435,7 @@ fn gen(rng: &mut Rng, tier: &str) -> Vec<(String, Value)> {
     for rrdp in [false, true] {
         exhaustive("same_key", rrdp, vec![], vec![vec![5], vec![5]], vec![], vec![0, 1], 1);
         exhaustive("same_key_dubious", rrdp, vec![5], vec![vec![5], vec![5]], vec![], vec![0, 1], 1);
-        exhaustive("different_keys", rrdp, vec![], vec![vec![5], vec![9]], vec![], vec![0, 1], if thorough { 1 } else { 293 });
+        exhaustive("different_keys", rrdp, vec![], vec![vec![5], vec![9]], vec![], vec![0, 1], if thorough { 13 } else { 293 });
         // thread 2 is inside its update of 5 (fetch started); 0 and 1 arrive
         exhaustive("same_key_third_fetching", rrdp, vec![], vec![vec![5], vec![5], vec![5]], vec![2; 5], vec![0, 1, 2], if thorough { 1 } else if rrdp { 47 } else { 7 });
         // thread 0 calls twice
